@@ -121,7 +121,7 @@ VARIABLE kind
 FInit == seed \in SeedLo..SeedHi /\ kind \in DOMAIN FaultKinds
 FNext == UNCHANGED <<seed, kind>>
 Base == RandDocP(seed, WithProps)
-Usable == WellFormed(Base) /\ Applicable(Base, FaultKinds[kind])
+Usable == WellFormed(Base) /\ OfKind(Base, "table") # <<>> /\ Applicable(Base, FaultKinds[kind])
 FaultDoc == Inject(seed, Base, FaultKinds[kind])
 
 \* design level (C06 "Ruled"): the model rejects every single-fault document with the rule's error
